@@ -169,7 +169,7 @@ class Box(Target):
     name = "box"
     has_bad = "neginf"
 
-    def __init__(self, rs, d, grad_bad="finite"):
+    def __init__(self, rs, d, grad_bad="finite", ones_inside=True):
         self.d = d
         self.mu = rs.uniform(0.5, 1.5, d)
         self.sig = rs.uniform(0.7, 2.0, d)
@@ -177,6 +177,12 @@ class Box(Target):
         self.hi = self.mu + rs.uniform(1.0, 2.5, d)       # np.ones(d) is always inside
         self.lo = np.minimum(self.lo, 0.2)
         self.hi = np.maximum(self.hi, 1.8)
+        if not ones_inside:                               # shifted box: the default initial point ones(d) is outside
+            sh = rs.uniform(2.5, 4.0, d) * (rs.uniform(size=d) < 0.6)
+            if not np.any(sh):
+                sh[int(rs.randint(d))] = 3.0
+            sh = sh * rs.choice([-1.0, 1.0], d)
+            self.mu, self.lo, self.hi = self.mu + sh, self.lo + sh, self.hi + sh
         self.grad_bad = grad_bad
 
     def in_bad(self, x):
@@ -369,12 +375,51 @@ class UserLik:
         return x + self.w * (self.c - cur + rs.uniform(0.05, 1.5)), None
 
 
+class UniformPrior:
+    """U(lo, hi) on a box: log-density 0 inside (up to a constant), -inf outside."""
+
+    def __init__(self, rs, d, ones_inside=True):
+        self.d = d
+        c = rs.uniform(0.5, 1.5, d)
+        self.lo = np.minimum(c - rs.uniform(1.0, 2.5, d), 0.2)
+        self.hi = np.maximum(c + rs.uniform(1.0, 2.5, d), 1.8)
+        if not ones_inside:
+            sh = rs.uniform(2.5, 4.0, d) * (rs.uniform(size=d) < 0.6)
+            if not np.any(sh):
+                sh[int(rs.randint(d))] = 3.0
+            sh = sh * rs.choice([-1.0, 1.0], d)
+            self.lo, self.hi = self.lo + sh, self.hi + sh
+        self.m = 0.5 * (self.lo + self.hi)
+
+    def in_bad(self, x):
+        x = np.asarray(x, float)
+        return bool(np.any(x < self.lo) or np.any(x > self.hi))
+
+    def lp(self, x):
+        return -np.inf if self.in_bad(x) else 0.0
+
+    def grad(self, x):
+        return np.zeros(self.d)
+
+    def draw(self, rs):
+        return self.lo + (self.hi - self.lo) * rs.uniform(0.1, 0.9, self.d)
+
+    def bad_point(self, rs, x):
+        y = np.array(x, float)
+        j = int(rs.randint(self.d))
+        y[j] = self.hi[j] + rs.uniform(0.05, 1.0) if rs.uniform() < 0.5 else self.lo[j] - rs.uniform(0.05, 1.0)
+        return y, j
+
+
 class PostRef(Target):
     name = "post"
 
     def __init__(self, prior, lik):
         self.prior, self.lik, self.d = prior, lik, prior.d
         self.has_bad = getattr(lik, "has_bad", None)
+        if isinstance(prior, UniformPrior):
+            self.has_bad = "neginf"
+            self.lo, self.hi = prior.lo, prior.hi
 
     def ll(self, x):
         return self.lik.ll(x)
@@ -387,6 +432,8 @@ class PostRef(Target):
         return self.lik.grad(x) + self.prior.grad(x)
 
     def in_bad(self, x):
+        if isinstance(self.prior, UniformPrior) and self.prior.in_bad(x):
+            return True
         return self.lik.in_bad(x)
 
     def typical(self, rs):
@@ -397,7 +444,12 @@ class PostRef(Target):
         return self.prior.m.copy()
 
     def bad_point(self, rs, x):
+        if isinstance(self.prior, UniformPrior):
+            return self.prior.bad_point(rs, x)
         return self.lik.bad_point(rs, x)
+
+    def _uniform_prior(self):
+        return isinstance(self.prior, UniformPrior)
 
     def gaussian_posterior(self):
         """exact mean/cov for the linear-Gaussian case."""
